@@ -28,6 +28,20 @@ class ServiceController(MpfController):
         super().__init__(machine)
         self._enabled = False
         self.configure_logging("service")
+        self.machine.events.add_handler('request_to_start_game', self._request_to_start_game)
+
+    def _request_to_start_game(self, **kwargs):
+        """Deny game starts while in service mode.
+
+        A mode which was just starting when service mode was entered (e.g. attract) is not stopped by
+        start_service() and would otherwise start a game (and enable flippers) during service.
+        """
+        del kwargs
+        if self.is_in_service():
+            self.info_log("Game start denied: machine is in service mode.")
+            return False
+
+        return True
 
     @staticmethod
     def _natural_key_sort(string_to_sort):
